@@ -1,5 +1,6 @@
 import Gocc.Driver.Proto
 import Gocc.Model.SemCheck
+import Gocc.Spec.SemWF
 import Gocc.Model.GenCert
 import Gocc.Model.GenVCert
 import Gocc.Model.LexGen
@@ -441,6 +442,9 @@ def opSemCheck (a : Art) : String :=
   | .error (.emptyAlt h) => s!"emptyalt {h}"
   | .error (.undefinedProd x) => s!"undefprod {x}"
   | .error (.undefinedRegDef r u) => s!"undefregdef {r} {u}"
+
+/-- `semspec id`: the property's clauses evaluated directly (Spec/SemWF.lean) -/
+def opSemSpec (a : Art) : String := if Gocc.semWFb a.g then "wf" else "ill"
 
 def opTerminals (a : Art) : String :=
   " ".intercalate (a.terminals.map fun s => "x" ++ String.join (s.toUTF8.toList.map fun b =>
